@@ -39,6 +39,9 @@ var (
 	// packfile never produces more data than the declared size; exceeding it
 	// indicates a structurally invalid entry.
 	ErrInflatedSizeMismatch = errors.New("packfile: inflated object exceeds declared size")
+	// ErrInflatedSizeShort is returned when a packfile object inflates to
+	// fewer bytes than the size declared in its object header.
+	ErrInflatedSizeShort = errors.New("packfile: inflated object is shorter than declared size")
 )
 
 // boundedWriter passes writes through to w up to limit bytes total, then
@@ -339,7 +342,13 @@ func (r *Scanner) inflateContent(contentOffset int64, writer io.Writer, declared
 	defer gogitsync.PutZlibReader(zr)
 
 	_, err = ioutil.CopyBufferPool(bounded, zr)
-	return err
+	if err != nil {
+		return err
+	}
+	if bounded.n != declaredSize {
+		return ErrInflatedSizeShort
+	}
+	return nil
 }
 
 // scan goes through the next stateFn.
@@ -530,11 +539,19 @@ func objectEntry(r *Scanner) (stateFn, error) {
 	// value, so any overrun signals a malformed entry. For delta entries
 	// the declared size is the size of the delta instruction stream, not
 	// the resolved object.
-	mw = &boundedWriter{w: mw, limit: oh.Size}
+	bounded := &boundedWriter{w: mw, limit: oh.Size}
 
-	_, err = ioutil.CopyBufferPool(mw, zr)
+	_, err = ioutil.CopyBufferPool(bounded, zr)
 	if err != nil {
 		return nil, err
+	}
+
+	// The stream must also produce no fewer bytes than declared: the
+	// object header that is hashed carries the declared size, so a short
+	// stream would yield an object whose name is not the hash of its
+	// contents. Upstream Git rejects such entries in index-pack.
+	if bounded.n != oh.Size {
+		return nil, fmt.Errorf("%w: %w", ErrMalformedPackfile, ErrInflatedSizeShort)
 	}
 
 	if err := r.Flush(); err != nil {
